@@ -37,6 +37,7 @@ class Machine:
         if s[0] == "ret": return s[1]
         if s[0] == "arg": return args[s[1]] if s[1] < len(args) else ("N",)
         if s[0] == "fail": raise Stop("ERR")
+        if s[0] == "panic": raise Stop("PANIC")
         if s[0] == "count":
             l = s[1]
             if not l: return ("N",)
